@@ -134,7 +134,7 @@ pub struct Multiplexor<R = SmallRng> {
     /// and it should stop processing.
     dropped_flows_tx: mpsc::UnboundedSender<u32>,
     /// Channel of received datagram frames for processing.
-    datagram_rx: Mutex<mpsc::Receiver<Datagram>>,
+    datagram_rx: tokio::sync::Mutex<mpsc::Receiver<Datagram>>,
     /// Channel for a `Multiplexor` to receive newly
     /// established streams after the peer requests one.
     con_recv_stream_rx: Mutex<mpsc::Receiver<MuxStream>>,
@@ -231,7 +231,7 @@ impl<R: Rng + Send> Multiplexor<R> {
             tx_msg_tx: tx_msg_tx.clone(),               // cheap
             flows: flows.clone(),                       // cheap
             dropped_flows_tx: dropped_flows_tx.clone(), // cheap
-            datagram_rx: Mutex::new(datagram_rx),
+            datagram_rx: tokio::sync::Mutex::new(datagram_rx),
             con_recv_stream_rx: Mutex::new(con_recv_stream_rx),
             bnd_request_rx: bnd_request_rx.map(Mutex::new),
             max_flow_id_retries: options.max_flow_id_retries,
@@ -337,7 +337,13 @@ impl<R: Rng + Send> Multiplexor<R> {
     #[tracing::instrument(skip(self), level = "debug")]
     #[inline]
     pub async fn get_datagram(&self) -> Result<Datagram> {
-        poll_fn(|cx| self.datagram_rx.lock().poll_recv(cx))
+        // A receiver only remembers the waker of its last poller, so callers must
+        // not poll it in turns: they queue up on the (async) lock and only the
+        // holder waits on the receiver. Both steps are cancel safe.
+        self.datagram_rx
+            .lock()
+            .await
+            .recv()
             .await
             .ok_or(Error::Closed)
     }
